@@ -479,3 +479,82 @@ Proof.
   - intros [Hp [Hf [Hn He]]]. subst got. repeat split; try assumption.
     destruct want; [congruence|reflexivity].
 Qed.
+
+(* ---------- documents with drawn names: the predicate is the one of the number slots ---------- *)
+Lemma doc_leaves_ok_exact : forall panicked failed want got,
+  doc_leaves_ok panicked failed want got = true <->
+  panicked = false /\ failed = false /\ want <> [] /\ got = want.
+Proof. intros. unfold doc_leaves_ok. apply number_slots_ok_exact. Qed.
+
+(* ---------- histories ---------- *)
+(* what the predicate of a JSON / XML / YAML Produce inside a history accepts *)
+Lemma doc_produce_ok_exact : forall wfail pre full panicked e got want back,
+  doc_produce_ok wfail pre full panicked e got want back = true <->
+  panicked = false /\
+  match e with
+  | None => wfail = false /\ got = pre ++ full /\ want <> [] /\ back = want
+  | Some _ => wfail = true /\ exists r, pre ++ full = got ++ r
+  end.
+Proof.
+  intros wfail pre full panicked e got want back. unfold doc_produce_ok.
+  rewrite andb_true_iff, negb_true_iff.
+  destruct e as [e|].
+  - rewrite andb_true_iff, has_prefix_spec. tauto.
+  - rewrite !andb_true_iff, !negb_true_iff, leaves_preserved_iff. split.
+    + intros (Hp & ((Hw & Hg) & Hn) & Hl). apply bytes_eqb_eq in Hg. subst back.
+      repeat split; try assumption. intro E. subst want. discriminate Hn.
+    + intros (Hp & Hw & Hg & Hn & Hl). subst got back. repeat split; try assumption.
+      * apply bytes_eqb_refl.
+      * destruct want; [congruence|reflexivity].
+Qed.
+
+Lemma doc_consume_ok_exact : forall rfail panicked e want got,
+  doc_consume_ok rfail panicked e want got = true <->
+  panicked = false /\
+  match e with
+  | None => rfail = false /\ want <> [] /\ got = want
+  | Some _ => rfail = true
+  end.
+Proof.
+  intros rfail panicked e want got. unfold doc_consume_ok.
+  rewrite andb_true_iff, negb_true_iff.
+  destruct e as [e|]; [tauto|].
+  rewrite !andb_true_iff, !negb_true_iff, leaves_preserved_iff. split.
+  - intros (Hp & (Hr & Hn) & Hl). subst got. repeat split; try assumption.
+    intro E. subst want. discriminate Hn.
+  - intros (Hp & Hr & Hn & Hl). subst got. repeat split; try assumption.
+    destruct want; [congruence|reflexivity].
+Qed.
+
+(* A history on one consumer value: as many answers as calls, the k-th answer is the answer of the
+   k-th call alone (whatever came before it), and every answer satisfies the single-call predicate *)
+Lemma consume_history_pointwise : forall cd bufm1 pol close_opt l,
+  length (consume_history cd bufm1 pol close_opt l) = length l /\
+  (forall k x, nth_error l k = Some x ->
+     nth_error (consume_history cd bufm1 pol close_opt l) k =
+       Some (consume cd bufm1 pol close_opt (live (fst x)) (snd x))) /\
+  (forall k x e, nth_error l k = Some x ->
+     let r := consume cd bufm1 pol close_opt (live (fst x)) (snd x) in
+     c_out r = ORet e -> call_excepted cd x = false ->
+     consume_ok cd close_opt (fst x) (snd x) false e (c_stored r) (c_closes r) = true).
+Proof.
+  intros cd bufm1 pol close_opt l. unfold consume_history. split; [apply map_length|]. split.
+  - intros k x Hk. rewrite nth_error_map, Hk. reflexivity.
+  - cbv zeta. intros k x e _ He Hx. apply consume_meets_predicate; [exact He|].
+    unfold call_excepted in Hx. destruct (fst x) as [[s c]|]; exact Hx.
+Qed.
+
+Lemma produce_history_pointwise : forall cd bufm1 close_opt l,
+  length (produce_history cd bufm1 close_opt l) = length l /\
+  (forall k x, nth_error l k = Some x ->
+     nth_error (produce_history cd bufm1 close_opt l) k =
+       Some (produce cd bufm1 close_opt (fst (fst x)) (snd (fst x)) (snd x))) /\
+  (forall k x e, nth_error l k = Some x ->
+     let r := produce cd bufm1 close_opt (fst (fst x)) (snd (fst x)) (snd x) in
+     p_out r = ORet e ->
+     produce_ok cd close_opt (fst (fst x)) (snd (fst x)) (snd x) false e (p_got r) (p_wcloses r) (p_pcloses r) = true).
+Proof.
+  intros cd bufm1 close_opt l. unfold produce_history. split; [apply map_length|]. split.
+  - intros k x Hk. rewrite nth_error_map, Hk. reflexivity.
+  - cbv zeta. intros k x e _ He. apply produce_meets_predicate. exact He.
+Qed.
